@@ -27,9 +27,7 @@ RECURSIVE CeilLog2(_)
 CeilLog2(n) == IF n <= 1 THEN 0 ELSE 1 + CeilLog2((n + 1) \div 2)
 
 \* remove all occurrences of v (std::erase) / all elements satisfying P
-RECURSIVE RemoveVal(_, _)
-RemoveVal(s, v) == IF s = <<>> THEN <<>>
-                   ELSE IF Head(s) = v THEN RemoveVal(Tail(s), v) ELSE <<Head(s)>> \o RemoveVal(Tail(s), v)
+RemoveVal(s, v) == SelectSeq(s, LAMBDA x : x # v)
 
 CountVal(s, v) == Cardinality({i \in 1..Len(s) : s[i] = v})
 
